@@ -2,6 +2,7 @@ package checks
 
 import (
 	"fmt"
+	"strings"
 	"verif/explore"
 	"verif/report"
 )
@@ -28,7 +29,21 @@ func C15(tier string) int {
 	n := len(k.Ops())
 	// two operations in one transaction (e.g. create through the child store, then update through the parent)
 	kp := newKitchen("parent+children+indexes+fk; 2 ops per tx", kFeat{orgs: true})
-	pcfg := explore.Config{Programs: explore.Pairs(len(kp.Ops())), SkipRejectedPrefix: true, MaxDepth: 2}
+	// pairs over the operations with ordinary values (the empty unique value, the duplicate-carrying list and the
+	// ignored failed delete take part as single operations)
+	var core []int
+	for i, o := range kp.Ops() {
+		if !strings.Contains(o.Name, "name=,") && !strings.Contains(o.Name, "roles=[r r]") && !strings.HasPrefix(o.Name, "deleteIgnoringNotFound") {
+			core = append(core, i)
+		}
+	}
+	pprogs := explore.SingleOps(len(kp.Ops()))
+	for _, a := range core {
+		for _, b := range core {
+			pprogs = append(pprogs, []int{a, b})
+		}
+	}
+	pcfg := explore.Config{Programs: pprogs, SkipRejectedPrefix: true, MaxDepth: 2}
 	if tier != "quick" {
 		pcfg.MaxDepth, pcfg.MaxTrans = 3, 20_000_000
 	}
